@@ -264,18 +264,31 @@ impl<T: Clone + Into<Vec<u8>>> FindNodeContext<T> {
             };
         }
 
-        for (peer, instant) in self.pending.values() {
-            if instant.elapsed() > self.peer_timeout {
-                tracing::trace!(
-                    target: LOG_TARGET,
-                    query = ?self.config.query,
-                    ?peer,
-                    elapsed = ?instant.elapsed(),
-                    "peer no longer counting towards parallelism factor"
-                );
-                self.pending_responses = self.pending_responses.saturating_sub(1);
-            }
-        }
+        // Peers that failed to respond within `peer_timeout` no longer count towards the
+        // parallelism factor. The number of pending responses is recomputed from the pending
+        // set: discounting a slow peer on every call would free one more slot each time this
+        // function is polled and let the number of in-flight requests grow without bound.
+        let peer_timeout = self.peer_timeout;
+        let query = self.config.query;
+        self.pending_responses = self
+            .pending
+            .values()
+            .filter(|(peer, instant)| {
+                let elapsed = instant.elapsed();
+                if elapsed > peer_timeout {
+                    tracing::trace!(
+                        target: LOG_TARGET,
+                        ?query,
+                        ?peer,
+                        ?elapsed,
+                        "peer no longer counting towards parallelism factor"
+                    );
+                    false
+                } else {
+                    true
+                }
+            })
+            .count();
 
         // At this point, we either have pending responses or candidates to query; and we need more
         // results. Ensure we do not exceed the parallelism factor.
